@@ -9,7 +9,7 @@ VARIABLES l, nstreams, infolen, written, rd, dumped
 TraceLog == ndJsonDeserialize(IOEnv.TRACE)
 Ev == TraceLog[l]
 IsEv(e) == l <= Len(TraceLog) /\ Ev.e = e /\ l' = l + 1
-MaxS == 16
+MaxS == 48
 Rec(ev) == [key |-> ev.key, kn |-> ev.kn, flags |-> ev.flags, id |-> ev.id, tp |-> ev.tp, len |-> ev.len, h |-> ev.h]
 
 TInit == /\ l = 1 /\ nstreams = 0 /\ infolen = <<>> /\ dumped = FALSE
